@@ -1,0 +1,46 @@
+//go:build verif
+
+// Machine-checked contracts for package config (comment-only; read by
+// /verif/gocv). Nothing in this file is compiled into the gateway.
+package config
+
+//@ define authHas(list, needle) = (exists k :: 0 <= k && k < len(list) && list[k] == needle)
+
+//@ func (*ServerConfig).matchAuth
+//@   requires s != nil
+//@   loop 0 invariant scanned: -1 <= rangeindex && rangeindex < len(s.Authentication) && (forall j :: 0 <= j && j <= rangeindex ==> s.Authentication[j] != needle)
+//@   ensures[C18,C05] iff: result == authHas(s.Authentication, needle)
+//@   nopanic[C10]
+
+//@ func (*ServerConfig).OpenIDEnabled
+//@   requires s != nil
+//@   ensures[C18,C05] iff: result == authHas(s.Authentication, "openid")
+
+//@ func (*ServerConfig).KerberosEnabled
+//@   requires s != nil
+//@   ensures[C18,C05] iff: result == authHas(s.Authentication, "kerberos")
+
+//@ func (*ServerConfig).BasicAuthEnabled
+//@   requires s != nil
+//@   ensures[C18,C05] iff: result == (authHas(s.Authentication, "local") || authHas(s.Authentication, "basic"))
+
+//@ func (*ServerConfig).NtlmEnabled
+//@   requires s != nil
+//@   ensures[C18,C05] iff: result == authHas(s.Authentication, "ntlm")
+
+//@ func Load
+//@   assigns *
+//@   ensures[C18] openidNeedsToken: authHas(result.Server.Authentication, "openid") ==> result.Caps.TokenAuth
+//@   ensures[C18] basicNeedsTls: authHas(result.Server.Authentication, "local") || authHas(result.Server.Authentication, "basic") ==> result.Server.Tls != "disable"
+//@   ensures[C18] ntlmXorKerberos: !(authHas(result.Server.Authentication, "ntlm") && authHas(result.Server.Authentication, "kerberos"))
+//@   ensures[C18] kerberosNeedsKeytab: authHas(result.Server.Authentication, "kerberos") ==> result.Kerberos.Keytab != ""
+//@   ensures[C18] signedNeedsKey: result.Server.HostSelection == "signed" ==> len(result.Security.QueryTokenSigningKey) != 0
+//@   ensures[C18] paaSigningKey: len(result.Security.PAATokenSigningKey) == 32 || randFailed()
+//@   ensures[C18] paaEncryptionKey: len(result.Security.PAATokenEncryptionKey) == 32 || randFailed()
+//@   ensures[C18] sessionKey: len(result.Server.SessionKey) == 32 || randFailed()
+//@   ensures[C18] sessionEncryptionKey: len(result.Server.SessionEncryptionKey) == 32 || randFailed()
+//@   ensures[C18] userTokenEncryptionKey: result.Security.EnableUserToken ==> len(result.Security.UserTokenEncryptionKey) == 32 || randFailed()
+// an absent user-token signing key selects encrypt-only mode (C15); a present one must not be short:
+//@   ensures[C18] userTokenSigningKey: len(result.Security.UserTokenSigningKey) == 0 || len(result.Security.UserTokenSigningKey) >= 32
+//@   ensures[C18] queryTokenSigningKey: result.Server.HostSelection == "signed" ==> len(result.Security.QueryTokenSigningKey) >= 32
+//@   nopanic[C10]
